@@ -33,7 +33,8 @@ STATIC = ["patch_flag_restored", "pages_sequence_flag", "patch_disables_document
     "patch_other_statements_evaluate", "patch_keeps_documented_prefix", "patch_drops_nothing_documented",
     "patch_names_resolve", "reset_switches_on", "patch_parse_consistent_partial", "substitute_spec",
     "substitute_spec_swapped", "substitute_symbol_only", "substitute_latex_only", "substitute_none",
-    "find_reports_first_occurrence", "reset_restores_all_switches", "patch_switches_restored", "pages_switches_restored"]
+    "find_reports_first_occurrence", "reset_restores_all_switches", "patch_switches_restored", "pages_switches_restored",
+    "known_exact_sound", "generation_writes_every_page"]
 
 WORKER = Path(__file__).resolve().parents[1] / "vp" / "docs19_worker.py"
 HARNESS = str(Path(__file__).resolve().parents[1])
@@ -227,6 +228,84 @@ def tie_switches(ctx):
                  "replay_kind": "switches"}, found_input=bool(left))
     ctx.evaluated(len(cases), len(set(cases)))
     ctx.sample({"stream": "switches", "start": keep[1][0], "calls": keep[1][1], "records": keep[1][2]})
+    return len(bad)
+
+
+def tie_filewriter(ctx, scratch):
+    """The page-writing step: the sequence of file operations is TRANSLATED from symplyphysics/docs/build.py (and the
+    role step from docs/build.py), `known_exact` is decided inside Coq (hypothesis of generation_writes_every_page via
+    known_exact_sound), and the translation is validated by running the real _process_law on a tiny documented module
+    into a directory whose page is missing / longer / shorter / equal / empty."""
+    from symplyphysics.docs import build  # pylint: disable=import-outside-toplevel
+    try:
+        missing, exists = D.read_page_writer(common.REPO / "symplyphysics" / "docs" / "build.py")
+        role = D.read_role_writer(common.REPO / "docs" / "build.py")
+    except D.Unmodelled as e:
+        ctx.violation("C19:file-writer:translator", f"the page-writing step is outside the translator's vocabulary: {e}",
+            {"kind": "broken-tie", "theorem_or_tie": "read_page_writer / read_role_writer (vp/docs19.py)", "why": str(e)}, found_input=False)
+        return 0
+    ctx.coverage["file_writer"] = {"if_missing": missing, "if_exists": exists, "role_step": role}
+    W = f"(mkWriter {D.coq_fops(missing)} {D.coq_fops(exists)})"
+    WR = f"(mkWriter [FOpenW; FWrite] {D.coq_fops(role)})"
+    pkg = scratch / "fw" / "pkg"
+    pkg.mkdir(parents=True)
+    (pkg / "law_x.py").write_text('"""\nTiny law\n========\n\nA page of known text.\n"""\n')
+    out = scratch / "fw" / "out"
+    out.mkdir()
+    page = out / (".".join((pkg / "law_x").parts[1:]) + ".rst")
+    try:
+        build._process_law(str(pkg), "law_x.py", str(out), True)  # pylint: disable=protected-access
+        new = page.read_text(encoding="utf-8")
+    except Exception as e:  # pylint: disable=broad-except
+        ctx.violation("C19:file-writer:probe", f"_process_law on a tiny module failed: {type(e).__name__}: {e}",
+            {"kind": "broken-tie", "theorem_or_tie": "file-writer validation"}, found_input=False)
+        return 0
+    finally:
+        restore_switches()
+    rng = ctx.rng
+    olds = [None, new, "", "x", new + "STALE TAIL\n" * 3, new[:-5], "Z" * (len(new) + 40), new[: len(new) // 2] + "q" * len(new)]
+    olds += ["".join(rng.choice("ab \n") for _ in range(rng.randrange(0, 2 * len(new)))) for _ in range(ctx.pick(6, 40))]
+    cases, keep = [], []
+    for old in olds:
+        if old is None:
+            page.unlink(missing_ok=True)
+        else:
+            page.write_text(old, encoding="utf-8")
+        try:
+            build._process_law(str(pkg), "law_x.py", str(out), True)  # pylint: disable=protected-access
+            obs = page.read_text(encoding="utf-8")
+        except Exception as e:  # pylint: disable=broad-except
+            obs = None
+            err = f"{type(e).__name__}: {e}"
+        finally:
+            restore_switches()
+        o = "None" if old is None else f"(Some (txt {D.coq_string(old)}))"
+        r = "None" if obs is None else f"(Some (txt {D.coq_string(obs)}))"
+        cases.append(f"({o}, {r})")
+        keep.append((old, obs))
+    opt_eq = ("(fun a b : option text => match a, b with Some x, Some y => text_eqb x y | None, None => true | _, _ => false end)")
+    bad = coqrun.eval_cases(ctx, "filewriter", D.PREAMBLE, cases,
+        f"fun c : option text * option text => {opt_eq} (file_write {W} (fst c) (txt {D.coq_string(new)})) (snd c)")
+    for i in bad[:5]:
+        old, obs = keep[i]
+        ctx.violation(f"C19:file-writer:trace:{sha(repr(old))}", "the translated file operations do not reproduce the real write step",
+            {"kind": "disagreement", "input": {"old": old, "new": new}, "observed": obs, "translated": [missing, exists],
+             "theorem_or_tie": "file_write ~ _process_law (translator validation)", "replay_kind": "file-writer"}, found_input=(obs != new))
+    exact = coqrun.eval_cases(ctx, "filewriter_exact", D.PREAMBLE, [W, WR], "fun w : writer => known_exact w")
+    ctx.obligations(2, 2 - len(exact))
+    for i in exact:
+        which = "page" if i == 0 else "role-step"
+        wrong = [(old, obs) for old, obs in keep if obs != new] if i == 0 else []
+        old, obs = (wrong[0] if wrong else (None, None))
+        ctx.violation(f"C19:file-writer:not-exact:{which}",
+            f"the {which} writer {[missing, exists] if i == 0 else role} is not among the sequences proved to leave exactly the new text"
+            + (f"; real run: a page holding {old[:60]!r}... ({len(old)} chars) is rewritten to a text of {len(obs or '')} chars instead of the new "
+               f"{len(new)} chars (stale tail {str(obs)[len(new):len(new) + 40]!r})" if wrong else ""),
+            {"kind": "violation" if wrong else "broken-proof", "input": {"old": old, "new": new}, "observed": obs, "expected": new,
+             "translated": [missing, exists] if i == 0 else role, "theorem_or_tie": "hypothesis `known_exact` of known_exact_sound / generation_writes_every_page",
+             "replay_kind": "file-writer"}, found_input=bool(wrong))
+    ctx.evaluated(len(cases), len(set(cases)))
+    ctx.sample({"stream": "file-writer", "old_length": len(keep[4][0]), "new_length": len(new), "observed_equals_new": keep[4][1] == new})
     return len(bad)
 
 
@@ -998,6 +1077,8 @@ def _run(ctx, sources, scratch):
         "ref": Job(scratch, "ref", "reference", dict(base, sources=[
             {"stem": s["stem"], "kind": s["kind"], "path": str(s["path"]), "dotted": s["dotted"]} for s in sources]), "0"),
     }
+    jobs["rebuild"] = Job(scratch, "rebuild", "rebuild", dict(base, seed=rng.randrange(10**9),
+        pages=sorted({s["stem"] + ".rst" for s in sources} | {"index.rst"})), "0")
     cands = candidate_sources()
     n_orders = ctx.pick(1, 3)
     order_specs = []
@@ -1007,7 +1088,7 @@ def _run(ctx, sources, scratch):
         jobs[f"ord{k}"] = Job(scratch, f"ord{k}", "order", dict(base, items=items), "0")
 
     # ---- proof-part ties, while the workers run ----
-    d1 = tie_processors(ctx) + tie_switches(ctx)
+    d1 = tie_processors(ctx) + tie_switches(ctx) + tie_filewriter(ctx, scratch)
     rows, side_fail, d2 = tie_catalogue(ctx, sources)
     d3 = tie_synthetic(ctx)
     d4 = tie_view(ctx)
@@ -1151,6 +1232,38 @@ def _run(ctx, sources, scratch):
                 found_input=len(seen) > 1)
     ctx.coverage["ambiguous_symbol_names"] = {n: idx[n] for n in ambiguous}
 
+    # pre-existing content of the output directory: the result must be the fresh build, byte for byte
+    RB = outs["rebuild"]
+    n_rebuild = 0
+    if RB.get("ok") and pages_ok:
+        for run in (1, 2):
+            if RB.get(f"main{run}_ok") is False:
+                ctx.violation(f"C19:rebuild-raises:{run}", f"docs/build.py main() into a pre-filled directory raised (run {run}): {RB.get(f'main{run}_error')}",
+                    {"kind": "violation", "observed": RB.get(f"main{run}_error"), "traceback": RB.get(f"main{run}_traceback"), "replay_kind": "rebuild"})
+        for which, label in (("gen_after1", "generation into a directory pre-filled with stale pages"),
+                ("gen", "second build into the directory left by the first build and its role step")):
+            got = read_pages(jobs["rebuild"].dir / which)
+            if not got:
+                continue
+            for page in sorted(set(got) | set(genA)):
+                x, y = genA.get(page), got.get(page)
+                n_rebuild += 1
+                if x == y:
+                    continue
+                if x is not None and y is not None and which == "gen" and classify_diff(x, y) == "term-order":
+                    history.append({"page": page, "experiment": "second build into the same directory"})
+                    continue
+                pre = (RB.get("kinds") or {}).get(page)
+                tail = (y[len(x):len(x) + 60] if x is not None and y is not None and y.startswith(x) else None)
+                ctx.violation(f"C19:stale-output:{page}",
+                    f"{label}: page {page} (pre-filled: {pre}) is not the freshly generated text"
+                    + (f"; it is the fresh text followed by a stale tail {tail!r}" if tail else ""),
+                    {"kind": "violation", "item": page, "prefilled_with": pre, "experiment": label,
+                     "observed_length": None if y is None else len(y), "expected_length": None if x is None else len(x),
+                     "stale_tail": tail, "replay_kind": "rebuild"})
+    ctx.coverage["rebuild_pages_compared"] = n_rebuild
+    ctx.coverage["rebuild_prefill"] = RB.get("prefill")
+
     # seeded orders
     n_order_pages = 0
     for k in range(n_orders):
@@ -1248,6 +1361,27 @@ def replay(ctx, rep):
                 setattr(GP, f, v)
         print("  defaults:", saved, "| table read from the source:", D.read_processor_writes(common.REPO / "symplyphysics" / "core" / "processors.py"))
         return 0
+    if kind == "file-writer":
+        from symplyphysics.docs import build  # pylint: disable=import-outside-toplevel
+        scratch = Path(tempfile.mkdtemp(prefix="vp_c19_"))
+        try:
+            pkg = scratch / "pkg"
+            pkg.mkdir()
+            (pkg / "law_x.py").write_text('"""\nTiny law\n========\n\nA page of known text.\n"""\n')
+            out = scratch / "out"
+            out.mkdir()
+            page = out / (".".join((pkg / "law_x").parts[1:]) + ".rst")
+            if rep["input"]["old"] is not None:
+                page.write_text(rep["input"]["old"], encoding="utf-8")
+            build._process_law(str(pkg), "law_x.py", str(out), True)  # pylint: disable=protected-access
+            got = page.read_text(encoding="utf-8")
+            print("  page before :", repr(rep["input"]["old"]))
+            print("  page after  :", repr(got))
+            print("  new text    :", repr(rep["input"]["new"]), "-- REPRODUCED" if got != rep["input"]["new"] else "-- page is exactly the new text")
+            print("  translated  :", D.read_page_writer(common.REPO / "symplyphysics" / "docs" / "build.py"))
+        finally:
+            shutil.rmtree(scratch, ignore_errors=True)
+        return 0
     if kind == "module-shape":
         from symplyphysics.docs import patch as P  # pylint: disable=import-outside-toplevel
         tree = ast.parse(Path(rep["path"]).read_text(encoding="utf-8"))
@@ -1282,6 +1416,26 @@ def replay(ctx, rep):
             for hs in rep["input"]["hash_seeds"]:
                 o = Job(scratch, f"r{hs}", "roles", {"strings": [rep["input"]["string"]]}, hs).wait()
                 print(f"  PYTHONHASHSEED={hs}: {rep['input']['string']} -> {o.get('results')}")
+        finally:
+            shutil.rmtree(scratch, ignore_errors=True)
+        return 0
+    if kind == "rebuild":
+        scratch = Path(tempfile.mkdtemp(prefix="vp_c19_"))
+        try:
+            sources = D.documented_sources(common.REPO)
+            base = {"repo": str(common.REPO), "harness": HARNESS}
+            ja = Job(scratch, "runA", "full", base, "0")
+            jb = Job(scratch, "rebuild", "rebuild", dict(base, seed=rep.get("seed", 1),
+                pages=sorted({s["stem"] + ".rst" for s in sources} | {"index.rst"})), "0")
+            ja.wait()
+            o = jb.wait()
+            fresh = read_pages(ja.dir / "gen")
+            for which in ("gen_after1", "gen"):
+                got = read_pages(jb.dir / which)
+                bad = [p for p in sorted(fresh) if got.get(p) != fresh[p] and classify_diff(fresh[p], got.get(p) or "") != "term-order"]
+                print(f"  {which}: {len(bad)} of {len(fresh)} pages differ from the fresh build", "-- REPRODUCED" if bad else "")
+                for p in bad[:3]:
+                    print(f"    {p}: pre-filled {o.get('kinds', {}).get(p)}, length {len(got.get(p) or '')} vs fresh {len(fresh[p])}; tail {(got.get(p) or '')[len(fresh[p]):][:60]!r}")
         finally:
             shutil.rmtree(scratch, ignore_errors=True)
         return 0
